@@ -105,7 +105,8 @@ def get_signal_variance(spec, space):
 def _single_power_analyze(field, idx, binbounds):
     power_domain = PowerSpace(field.domain[idx], binbounds)
     pd = PowerDistributor(field.domain, power_domain, idx)
-    return pd.adjoint_times(field.weight(1)).weight(-1)  # divides by bin size
+    # weight only the analysed space: passengers may have no volume (UnstructuredDomain)
+    return pd.adjoint_times(field.weight(1, idx)).weight(-1, idx)  # divides by bin size
 
 
 # MR FIXME: this function is not well suited for analyzing more than one
@@ -152,7 +153,7 @@ def power_analyze(field, spaces=None, binbounds=None,
     """
 
     for sp in field.domain:
-        if not sp.harmonic and not isinstance(sp, PowerSpace):
+        if not getattr(sp, "harmonic", False) and not isinstance(sp, PowerSpace):
             logger.warning("WARNING: Field has a space in `domain` which is "
                            "neither harmonic nor a PowerSpace.")
 
